@@ -52,28 +52,67 @@ fn check(view: CommandView<'_>, r: Result<Request<'_>, Error>) {
     let data = view.data();
     let s = spec(cla, ins, p1, data);
     match r {
-        Err(Error::ClassNotSupported) => assert!(s == Spec::ClassNotSupported, "C08: spurious ClassNotSupported"),
+        Err(Error::ClassNotSupported) => assert!(
+            s == Spec::ClassNotSupported,
+            "C08: spurious ClassNotSupported"
+        ),
         Err(Error::IncorrectDataParameter) => {
-            assert!(s == Spec::IncorrectDataParameter, "C08: spurious IncorrectDataParameter")
+            assert!(
+                s == Spec::IncorrectDataParameter,
+                "C08: spurious IncorrectDataParameter"
+            )
         }
         Err(Error::InstructionNotSupportedOrInvalid) => {
-            assert!(s == Spec::InstructionNotSupportedOrInvalid, "C08: spurious InstructionNotSupportedOrInvalid")
+            assert!(
+                s == Spec::InstructionNotSupportedOrInvalid,
+                "C08: spurious InstructionNotSupportedOrInvalid"
+            )
         }
         Err(_) => panic!("C08: an error outside the U2F set"),
         Ok(Request::Version) => assert!(s == Spec::Version, "C08: spurious Version"),
         Ok(Request::Register(reg)) => {
-            assert!(s == Spec::Register, "C08: Register accepted against the format");
-            assert!(reg.challenge.as_ptr() == data.as_ptr(), "C08: challenge is not data[0..32]");
-            assert!(reg.app_id.as_ptr() == data[32..].as_ptr(), "C08: application is not data[32..64]");
+            assert!(
+                s == Spec::Register,
+                "C08: Register accepted against the format"
+            );
+            assert!(
+                reg.challenge.as_ptr() == data.as_ptr(),
+                "C08: challenge is not data[0..32]"
+            );
+            assert!(
+                reg.app_id.as_ptr() == data[32..].as_ptr(),
+                "C08: application is not data[32..64]"
+            );
         }
         Ok(Request::Authenticate(auth)) => {
-            assert!(s == Spec::Authenticate(p1), "C08: Authenticate accepted against the format");
-            assert!(auth.control_byte as u8 == p1, "C08: control byte differs from P1");
-            assert!(auth.challenge.as_ptr() == data.as_ptr(), "C08: challenge is not data[0..32]");
-            assert!(auth.app_id.as_ptr() == data[32..].as_ptr(), "C08: application is not data[32..64]");
-            assert!(auth.key_handle.as_ptr() == data[65..].as_ptr(), "C08: key handle is not data[65..]");
-            assert!(auth.key_handle.len() == data[64] as usize, "C08: key handle length");
-            assert!(auth.key_handle.len() == data.len() - 65, "C08: key handle does not end with the data");
+            assert!(
+                s == Spec::Authenticate(p1),
+                "C08: Authenticate accepted against the format"
+            );
+            assert!(
+                auth.control_byte as u8 == p1,
+                "C08: control byte differs from P1"
+            );
+            assert!(
+                auth.challenge.as_ptr() == data.as_ptr(),
+                "C08: challenge is not data[0..32]"
+            );
+            assert!(
+                auth.app_id.as_ptr() == data[32..].as_ptr(),
+                "C08: application is not data[32..64]"
+            );
+            assert!(
+                auth.key_handle.as_ptr() == data[65..].as_ptr(),
+                "C08: key handle is not data[65..]"
+            );
+            assert!(
+                auth.key_handle.len() == data[64] as usize,
+                "C08: key handle length"
+            );
+            assert!(
+                auth.key_handle.len() == data.len() - 65,
+                "C08: key handle does not end with the data"
+            );
         }
     }
 }
@@ -92,7 +131,12 @@ fn covers(view: CommandView<'_>) {
     kani::cover!(matches!(s, Spec::Authenticate(_)) && data.len() == 65 + 255);
     kani::cover!(s == Spec::IncorrectDataParameter && ins == 1);
     kani::cover!(s == Spec::IncorrectDataParameter && ins == 2 && (p1 == 3 || p1 == 7 || p1 == 8));
-    kani::cover!(s == Spec::IncorrectDataParameter && ins == 2 && data.len() >= 65 && data.len() == 65 + data[64] as usize);
+    kani::cover!(
+        s == Spec::IncorrectDataParameter
+            && ins == 2
+            && data.len() >= 65
+            && data.len() == 65 + data[64] as usize
+    );
     kani::cover!(s == Spec::InstructionNotSupportedOrInvalid);
     kani::cover!(view.extended);
     kani::cover!(!view.extended && view.data().len() > 0);
@@ -169,12 +213,18 @@ pub fn c08_k_data_window() {
                 // short Lc
                 assert!(d.len() == apdu[4] as usize, "C08: short Lc");
                 assert!(d.as_ptr() == apdu[5..].as_ptr(), "C08: short data offset");
-                assert!(body == 1 + d.len() || body == 2 + d.len(), "C08: short framing");
+                assert!(
+                    body == 1 + d.len() || body == 2 + d.len(),
+                    "C08: short framing"
+                );
             } else {
                 assert!(body >= 3);
                 let lc = ((apdu[5] as usize) << 8) | apdu[6] as usize;
                 assert!(d.len() == lc, "C08: extended Lc");
-                assert!(d.as_ptr() == apdu[7..].as_ptr(), "C08: extended data offset");
+                assert!(
+                    d.as_ptr() == apdu[7..].as_ptr(),
+                    "C08: extended data offset"
+                );
                 assert!(body == 3 + lc || body == 5 + lc, "C08: extended framing");
             }
         }
